@@ -20,7 +20,7 @@ def main():
     core_mod = sys.modules["flipjump.interpreter._fjcore"]
     from flipjump.utils.exceptions import IOReadOnEOF
     work = json.load(open(work_path))
-    d = Path(tempfile.mkdtemp(prefix="fjv_c11_"))
+    d = Path(tempfile.mkdtemp(prefix="fjv_c11_", dir=str(Path(work_path).parent)))     # inside the parent's scratch: removed with it
     with open(out_path, "w") as out, open(prog_path, "w") as prog:
         for item in work:
             prog.write(f"{item['id']}\n")
